@@ -1,6 +1,8 @@
 """C02 - Value is conserved"""
 from pyvc.runner import func
 
+UPDATE_ALL = [func("bt.core.StrategyBase.update", variant=v) for v in ("flat", "paper", "nested", "nested-paper")]
+
 ID = "C02"
 META = {
     "assumptions": ['A-REAL', 'A-COMM', 'A-T', 'A-IND', 'A-DATA-NONE', 'A-CYTHON', 'A-SOLVER', 'A-ENGINE'],
@@ -8,14 +10,14 @@ META = {
 }
 MANIFEST_ENTRY = {
     "level_text": 'Deductive proof of the per-operation conservation clauses and of the sweep/recompute clauses of update for all inputs; the day-by-day decomposition is their telescoping.',
-    "level_note": "Reals not floats; the telescoping over the operations of a date is an induction over the ghost ledger stated in DESIGN.md (not mechanised beyond its per-operation steps); update variant 'flat'.",
+    "level_note": "Reals not floats; the telescoping over the operations of a date is an induction over the ghost ledger stated in DESIGN.md (not mechanised beyond its per-operation steps).",
     "technique": "contract-based deductive verification: VCs from the real AST (pyvc) discharged by z3/cvc5; loop invariants with ghost sums; lemmas over contract clauses",
 }
 
 
 def tasks(tier, seed):
     return [
-        func("bt.core.StrategyBase.update", variant="flat"),
+        *UPDATE_ALL,
         func("bt.core.SecurityBase.transact"),
         func("bt.core.SecurityBase.outlay"),
         func("bt.core.StrategyBase.adjust"),
